@@ -34,10 +34,27 @@ def run(chk):
     inv_b, inv_s = wd.binance_inventory(), wd.bitstamp_inventory()
     chk.coverage["signed_endpoints"] = {"binance": len(inv_b), "bitstamp": len(inv_s)}
     nonces = set()
+    import os
+    import time as _time
+    tz0 = os.environ.get("TZ")
     for rd in range(rounds):
         with_tb = rd == 1
+        # "timestamps are current" wherever the process runs: some rounds under other time zones of the process
+        tz = {2: "JST-9", 3: "EST5EDT", 4: "UTC"}.get(rd % 6)
+        if tz is not None:
+            os.environ["TZ"] = tz
+            _time.tzset()
+            chk.count("rounds_in_tz_" + tz)
         for name, fn, inv in (("binance", wd.run_binance, inv_b), ("bitstamp", wd.run_bitstamp, inv_s)):
-            res = asyncio.run(fn(rnd, with_tb=with_tb))
+            try:
+                res = asyncio.run(fn(rnd, with_tb=with_tb))
+            finally:
+                if tz is not None and name == "bitstamp":
+                    if tz0 is None:
+                        os.environ.pop("TZ", None)
+                    else:
+                        os.environ["TZ"] = tz0
+                    _time.tzset()
             if rd == 0:
                 missing = inv - {c["key"] for c, _, _ in res}
                 if missing:
@@ -66,6 +83,22 @@ def run(chk):
                                             "received": {"method": r["method"], "raw_path": r["raw_path"],
                                                          "body": r["body"].decode(errors="replace"),
                                                          "headers": r["headers"]}})
+    # a request the server read and then dropped: whatever the client does next (give up, retry), every request that reaches
+    # the server verifies, and no Bitstamp nonce is ever sent twice
+    for which in ("bitstamp", "binance"):
+        for _ in range(common.tier_n(chk.tier, 2, 10)):
+            reqs, err = asyncio.run(wd.run_dropped(rnd, which))
+            chk.count("dropped_request_scenarios")
+            chk.count(which + "_requests", len(reqs))
+            seen = set()
+            for r in reqs:
+                alarms = wd.verify_bitstamp(r, seen) if which == "bitstamp" else wd.verify_binance(r)
+                for fp, msg in alarms:
+                    chk.violation(fp, msg + " (after the server dropped a request it had read)",
+                                  {"kind": "monitor", "monitor": fp, "scenario": "server reads the second request and closes "
+                                   "the connection without answering", "client": which, "client_error": err,
+                                   "received": [{"method": x["method"], "raw_path": x["raw_path"],
+                                                 "nonce": x["headers"].get("X-Auth-Nonce")} for x in reqs]})
     # nonces never repeat -- also not across worker processes forked after the library was imported
     forked = _nonces_in_forked_workers(3, 4)
     flat = [n for ns in forked for n in ns]
